@@ -111,11 +111,21 @@ func PairCorpus() []*ConcScenario {
 // TripleCorpus is every unordered triple (with repetition of at most two equal kinds excluded: all
 // three distinct, or the first two equal) of the state-changing request kinds; the third request
 // reuses slot 0's actor with its own activity id.
-func TripleCorpus() []*ConcScenario {
+func TripleCorpus() []*ConcScenario { return tripleCorpus(nil) }
+
+// QuickTripleCorpus: the triples over four kinds that all change the same local note / collection.
+func QuickTripleCorpus() []*ConcScenario {
+	return tripleCorpus(map[string]bool{"in-like": true, "in-announce": true, "in-add": true, "out-update": true})
+}
+
+func tripleCorpus(only map[string]bool) []*ConcScenario {
 	var ks []reqKind
 	for _, k := range pairKinds() {
 		switch k.name {
 		case "get-inbox", "get-outbox", "get-object", "out-block", "out-follow", "in-add-two-targets", "in-delete", "out-remove":
+			continue
+		}
+		if only != nil && !only[k.name] {
 			continue
 		}
 		ks = append(ks, k)
